@@ -307,7 +307,8 @@ func entFid(d p9p.Dirent) uint32 {
 	return uint32(f.Uint())
 }
 
-var nameAlphabet = []string{"a", "b", "dir1", "x", ".", "", "..", "..", ".", "x/y", "a\\b", "/\\", "long-name-01"}
+var nameAlphabet = []string{"a", "b", "dir1", "x", ".", "", "..", "..", ".", "c", "d", "e", "long-name-01"}
+var sepNames = []string{"x/y", "a\\b", "/\\", "/", "\\"}
 
 func genNames(rng *prng.R) []string {
 	switch rng.Intn(12) {
@@ -325,8 +326,10 @@ func genNames(rng *prng.R) []string {
 	n := rng.Intn(6)
 	l := make([]string, n)
 	for i := range l {
-		if rng.Chance(1, 10) {
+		if rng.Chance(1, 12) {
 			l[i] = string(rng.Bytes(rng.Intn(4)))
+		} else if rng.Chance(1, 25) {
+			l[i] = sepNames[rng.Intn(len(sepNames))]
 		} else {
 			l[i] = nameAlphabet[rng.Intn(len(nameAlphabet))]
 		}
@@ -416,7 +419,7 @@ func runSeq(r *rep.Report, rng *prng.R) {
 		switch rng.Intn(6) {
 		case 0:
 			p.walkK = -1
-		case 1:
+		case 1, 2:
 			p.walkK = rng.Intn(4)
 		}
 		for i := 0; i < 8; i++ {
@@ -515,6 +518,8 @@ func runSeq(r *rep.Report, rng *prng.R) {
 				name := nameAlphabet[rng.Intn(len(nameAlphabet))]
 				if rng.Chance(1, 6) {
 					name = string(rng.Bytes(rng.Intn(4)))
+				} else if rng.Chance(1, 5) {
+					name = sepNames[rng.Intn(len(sepNames))]
 				}
 				perm := uint32(rng.U64())
 				mode := p9p.Flag(rng.Pick(0, 1, 2))
@@ -573,6 +578,11 @@ func runSeq(r *rep.Report, rng *prng.R) {
 		oddTotal += odd
 		ops = append(ops, sx.List(append(opHead, ans)))
 		obs = append(obs, sx.L(callS, res, fidsS(bound)))
+		rs := sx.String(res)
+		if i := strings.IndexByte(rs, ' '); i > 0 {
+			rs = rs[1:i]
+		}
+		opResults[kind+":"+rs]++
 		c := caseSoFar()
 
 		// ---- oracles, from the property text
@@ -677,6 +687,8 @@ func runSeq(r *rep.Report, rng *prng.R) {
 	r.Case(c, sx.List(obs), br, len(ops) > 1)
 }
 
+var opResults = map[string]int{}
+
 type otherAuthFile struct{}
 
 func (otherAuthFile) Read(ctx context.Context, p []byte, offset int64) (int, error)  { return 0, nil }
@@ -698,4 +710,5 @@ func main() {
 	for i := 0; i < n; i++ {
 		runSeq(r, rng.Fork())
 	}
+	r.Extra["operations_by_result"] = opResults
 }
